@@ -57,6 +57,9 @@ func runC03(c *Ctx) {
 			if cc, ok := in.(ssa.CallInstruction); ok {
 				walk(calleeOf(cc), d+1)
 			}
+			if mc, ok := in.(*ssa.MakeClosure); ok {
+				walk(mc.Fn.(*ssa.Function), d+1) // callbacks handed to helpers belong to the tree
+			}
 		}
 	}
 	walk(allocJob, 0)
